@@ -5,8 +5,8 @@ import filtercommon as fc
 import vlib
 
 REPOS = 'foo,foo/a,foo/b,fooey'
-PREFIXES_Q = ['foo', 'pfx/sub']
-PREFIXES_T = ['foo', 'pfx/sub', 'a', 'a/b/c', 'x-1.y_z/q0']
+PREFIXES_Q = ['a', 'pfx/sub']
+PREFIXES_T = ['a', 'pfx/sub', 'foo', 'a/b/c', 'x-1.y_z/q0']
 
 
 def run(ctx):
